@@ -122,7 +122,10 @@ def invoke(fid: str, kwargs: dict[str, Any]) -> Any:
         return _nested(ishape, lambda idx: Term(o, args + tuple(idx_atom(j) for j in idx)))
 
     outs = fd["outputs"]
-    res = value(outs[0]) if len(outs) == 1 else tuple(value(o) for o in outs)
+    if fd.get("retnone"):
+        res = None if len(outs) == 1 else tuple(None for _ in outs)
+    else:
+        res = value(outs[0]) if len(outs) == 1 else tuple(value(o) for o in outs)
     emit("ret")
     return res
 
@@ -159,7 +162,16 @@ def make_pipefunc(fd: dict, tag: str = ""):
     bound = {p: from_json(v) for p, v in (fd.get("bound") or {}).items()}
     outs = fd["outputs"]
     ishape = fd.get("internal_shape") or None
-    pf = PipeFunc(fn, outs[0] if len(outs) == 1 else tuple(outs), renames=renames or None,
+    orig_outs = list(outs)
+    if fd.get("outperm") and len(outs) > 1:
+        # the function is declared with the output names in reversed order and renamed position by position, so that
+        # routing must follow the names AFTER renaming: position k is finally called outs[k]
+        orig_outs = list(reversed(outs))
+        renames.update({o: n for o, n in zip(orig_outs, outs) if o != n})
+    elif fd.get("outrenamed"):
+        orig_outs = [f"r_{o}" for o in outs]
+        renames.update(dict(zip(orig_outs, outs)))
+    pf = PipeFunc(fn, orig_outs[0] if len(outs) == 1 else tuple(orig_outs), renames=renames or None,
                   defaults=defaults or None, bound=bound or None, mapspec=fd.get("mapspec"),
                   internal_shape=tuple(ishape) if ishape else None, cache=bool(fd.get("cache", False)))
     pf._pfverif_id = fid  # noqa: SLF001
@@ -231,5 +243,6 @@ def desc_to_tla(desc: dict) -> dict:
             "has_ms": bool(fd.get("mapspec")), "ms": parse_mapspec(fd.get("mapspec")),
             "internal": list(fd.get("internal_shape") or []),
             "cache": bool(fd.get("cache", False)),
+            "retnone": bool(fd.get("retnone", False)),
         })
     return {"funcs": funcs}
